@@ -93,6 +93,11 @@ def _env(H):
 
 def _cheap(H, name):
     import passlib.hash as PH
+    try:
+        import passlib.handlers.django as DJ
+        DJ._import_des_crypt()               # django_des_crypt binds des_crypt lazily: bind it before the environment is built
+    except Exception:
+        pass
     for crypt_based in ("des_crypt", "bsdi_crypt", "md5_crypt", "sha1_crypt", "sha256_crypt", "sha512_crypt"):
         try:
             getattr(PH, crypt_based).set_backend("builtin")       # the pure-Python glue is the subject; crypt() is C03's
@@ -343,10 +348,19 @@ def run(tier, seed, t0, only=None):
     obs = []
     pairs = [(3, 3), (2, 3)] if tier == "quick" else [(1, 1), (3, 3), (2, 3), (7, 7), (8, 9), (16, 16)]
     pats = [(1, 2)] if tier == "quick" else [(1,), (2,), (3,), (4,), (1, 2), (3, 1), (2, 4)]
+    # quick: every hasher with equal-length passwords; different lengths and text/bytes forms for one hasher per glue family
+    core = {"des_crypt", "bsdi_crypt", "bigcrypt", "crypt16", "md5_crypt", "sha1_crypt", "sha256_crypt", "sha512_crypt", "bcrypt", "bcrypt_sha256",
+            "pbkdf2_sha256", "ldap_salted_sha1", "hex_md5", "phpass", "cisco_pix", "cisco_asa", "plaintext", "ldap_md5", "django_salted_sha1",
+            "mssql2005", "nthash", "msdcc2", "postgres_md5", "htdigest", "scram", "scrypt", "lmhash", "oracle11", "mysql41",
+            "ldap_sha512_crypt", "django_pbkdf2_sha256", "unix_disabled", "django_disabled", "apr_md5_crypt", "atlassian_pbkdf2_sha1"}
     for n in names:
         for a, b in pairs:
+            if tier == "quick" and a != b and n not in core:
+                continue
             obs.append(Ob("pair[%s,%d,%d]" % (n, a, b), ob_pair, {"name": n, "n1": a, "n2": b}, timeout=420))
         for pt in pats:
+            if tier == "quick" and n not in core:
+                continue
             obs.append(Ob("text[%s,%s]" % (n, "".join(map(str, pt))), ob_text, {"name": n, "pattern": pt}, timeout=420))
     if only:
         obs = [o for o in obs if only in o.name]
